@@ -1548,11 +1548,11 @@ pub fn run(cx: &mut Ctx) {
     cx.assume("tolerances: 1e-5 * (|F_k|…|F_0|)_ij for products, 1e-5 * (|A||A⁻¹||A||A⁻¹|)_ij for M∘M⁻¹ (first-order bound of Gauss-Jordan with partial pivoting in f32; at most 1e-5*cond^2-like), 1e-5 * permanent(|A|) for determinants, 2e-6 * |M||(v,1)| for a single matrix-vector product; angles enter the oracle as degs(d).to_rads() (unit conversion is C18's subject)");
     cx.assume("orient_y/orient_z inputs: the x hint is at least ~63 degrees away from the new axis (the documented construction normalises x × new_axis, which loses all accuracy when they are parallel); rotations sub-check uses unit inputs ('if new_y and x are unit vectors, the result is orthonormal')");
 
-    let n = cx.n(40_000, 3_000_000);
+    let n = cx.n(200_000, 3_000_000);
     cx.prop_check("constructors", n, con_case, |c, obs| check_constructor(c, obs));
-    let n = cx.n(60_000, 5_000_000);
+    let n = cx.n(300_000, 5_000_000);
     cx.prop_check("compose-apply", n, || prod_case(2), |c, obs| check_compose(c, obs));
-    let n = cx.n(60_000, 5_000_000);
+    let n = cx.n(300_000, 5_000_000);
     cx.prop_check("inverse", n, inv_case, |c, obs| check_inverse(c, obs));
     // non-vacuity: at least 30 % of the inverted matrices must need a row exchange
     if let Some(s) = cx.subs.iter().find(|s| s.name == "inverse") {
@@ -1574,11 +1574,11 @@ pub fn run(cx: &mut Ctx) {
             std::process::exit(2);
         }
     }
-    let n = cx.n(40_000, 3_000_000);
+    let n = cx.n(200_000, 3_000_000);
     cx.prop_check("determinant", n, det_case, |c, obs| check_det(c, obs));
-    let n = cx.n(30_000, 2_000_000);
+    let n = cx.n(150_000, 2_000_000);
     cx.prop_check("rotations", n, rot_case, |c, obs| check_rotation(c, obs));
-    let n = cx.n(30_000, 2_000_000);
+    let n = cx.n(150_000, 2_000_000);
     cx.prop_check("mat3", n, case2, |c, obs| check_mat3(c, obs));
 }
 
